@@ -88,7 +88,11 @@ def enum_strategy(n_max=6, max_deg=6, max_terms=6):
                 "lam": lam_strategy(),
                 "rows": st.lists(st.integers(0, 2 ** 20), min_size=1, max_size=4),
                 # export once, install another mapping with set_mapping, then run the check on the same object
-                "remap": gen.pick((False, 3), (True, 1)),
+                "remap": gen.pick((False, 5), ("set_mapping", 1), ("set_reverse_mapping", 1), ("edit", 1),
+                                  ("other_export", 1), ("copy_edit", 1)),
+                "pre": st.tuples(gen.pick(("to_qubo", 1), ("to_quso", 1), ("to_pubo", 1), ("to_puso", 1)),
+                                 gen.pick((2, 2), (3, 2), (4, 1))).map(list),
+                "edit": st.tuples(st.integers(0, 7), st.sampled_from([1, -1, 0.5, -2])).map(list),
             })
         return st.integers(0, 9).flatmap(lambda r: gen.label_pool(False, 3 if r else 1, n_max)).flatmap(for_labels)
     return st.sampled_from(KINDS).flatmap(for_kind)
@@ -111,27 +115,56 @@ def build_model(qv, spec):
     return M
 
 
+REMAP_MODES = ("set_mapping", "set_reverse_mapping", "edit", "other_export", "copy_edit")
+
+
 def maybe_remap(M, spec):
-    """Documented use: conversions follow the mapping in force.  Export once (any caches get filled), then
-    install a different bijection with set_mapping."""
-    if not spec.get("remap"):
-        return False
+    """Documented use: conversions follow the mapping and the terms in force *at the time of the call*.  Export once
+    (any cache gets filled), then change the model through documented API - install a different bijection with
+    set_mapping / set_reverse_mapping, edit a coefficient (followed by refresh(), so the bookkeeping is exact again),
+    or continue on an edited copy - or simply ask for a different form; the judged conversion comes after that.
+    Returns (model to judge, class label or None)."""
+    mode = spec.get("remap")
+    if not mode:
+        return M, None
+    if mode is True:
+        mode = "set_mapping"
     mp = M.mapping
     n = len(mp)
     if n < 2:
-        return False
+        return M, None
     t = spec["target"]
+    pre = spec.get("pre") or [t, spec["deg"]]
+    if mode != "other_export":
+        pre = [t, spec["deg"]]
     with warnings.catch_warnings():
         warnings.simplefilter("ignore")
-        if t in ("to_qubo", "to_quso"):
-            lib(getattr(M, t), what=t + "(first export)")
+        if pre[0] in ("to_qubo", "to_quso"):
+            lib(getattr(M, pre[0]), what=pre[0] + "(first export)")
         else:
-            lib(getattr(M, t), spec["deg"], what=t + "(first export)")
-    new = {l: n - 1 - i for l, i in mp.items()}
-    lib(M.set_mapping, new, what="set_mapping")
-    if M.mapping != new:
-        raise Violation("set_mapping_not_installed", "asked %r got %r" % (new, M.mapping))
-    return True
+            lib(getattr(M, pre[0]), pre[1], what=pre[0] + "(first export)")
+    if mode in ("set_mapping", "set_reverse_mapping"):
+        new = {l: n - 1 - i for l, i in mp.items()}
+        if mode == "set_mapping":
+            lib(M.set_mapping, new, what="set_mapping")
+        else:
+            lib(M.set_reverse_mapping, {i: l for l, i in new.items()}, what="set_reverse_mapping")
+        if M.mapping != new or M.reverse_mapping != {i: l for l, i in new.items()}:
+            raise Violation("%s_not_installed" % mode, "asked %r got %r / %r" % (new, M.mapping, M.reverse_mapping))
+    elif mode in ("edit", "copy_edit"):
+        if mode == "copy_edit":
+            M = lib(M.copy, what="copy")
+        keys = sorted(dict.keys(M), key=lambda k: (len(k), repr(k)))
+        idx, c = spec.get("edit") or [0, 1]
+        k = keys[idx % len(keys)] if keys else ()
+        hi = keys[-1] if keys else ()
+
+        def f():
+            M[k] += c                  # may cancel the term
+            M[hi] = M[hi] * 2 + 1      # never zero for the dyadic coefficients in use: the top-degree term stays
+        lib(f, what="edit")
+        lib(M.refresh, what="refresh")
+    return M, "after_" + mode
 
 
 def boolean_form(M_canon, spin):
@@ -206,7 +239,7 @@ def _run_enum(qv, spec, rec):
     if M is None:
         rec.add("skipped_constraint_too_big")
         return
-    remapped = maybe_remap(M, spec)
+    M, remapped = maybe_remap(M, spec)
     snap = gen.snapshot(M)
     mcanon = ref.canon(dict(M), spin_src)
     bform = boolean_form(mcanon, spin_src)
@@ -222,7 +255,7 @@ def _run_enum(qv, spec, rec):
     if spec.get("constraint"):
         classes.append("with_constraint")
     if remapped:
-        classes.append("after_set_mapping")
+        classes.append(remapped)
     mp = M.mapping
     rmp = M.reverse_mapping
     if sorted(mp.values()) != list(range(n)):
@@ -321,7 +354,11 @@ def cert_strategy():
                 "lam": lam_strategy(),
                 "sample_seed": st.integers(0, 2 ** 31 - 1),
                 "rows": st.just([0]),
-                "remap": gen.pick((False, 3), (True, 1)),
+                "remap": gen.pick((False, 5), ("set_mapping", 1), ("set_reverse_mapping", 1), ("edit", 1),
+                                  ("other_export", 1), ("copy_edit", 1)),
+                "pre": st.tuples(gen.pick(("to_qubo", 1), ("to_quso", 1), ("to_pubo", 1), ("to_puso", 1)),
+                                 gen.pick((2, 2), (3, 2), (4, 1))).map(list),
+                "edit": st.tuples(st.integers(0, 7), st.sampled_from([1, -1, 0.5, -2])).map(list),
             })
         return st.sampled_from(BIG_POOLS).flatmap(
             lambda p: st.integers(4, 12).map(lambda n: p[:n])).flatmap(for_labels)
@@ -351,7 +388,7 @@ def _run_cert(qv, pp, spec, rec):
     kind = spec["kind"]
     spin_src = gen.is_spin(kind)
     M = lib(build_model, qv, spec, what="build")
-    remapped = maybe_remap(M, spec)
+    M, remapped = maybe_remap(M, spec)
     snap = gen.snapshot(M)
     mcanon = ref.canon(dict(M), spin_src)
     bform = boolean_form(mcanon, spin_src)
